@@ -301,6 +301,67 @@ Example C28_chain_nonvacuous :
   end.
 Proof. vm_compute. repeat split; reflexivity. Qed.
 
+(* ---- chain encoding roll-up at index level, all four monoids, after every update sequence ---- *)
+(* on EVERY accepted poset: update_measure yields EXACTLY the index a rebuild with the updated measure
+   yields (same suffix tables), and every roll-up is the fold over the brute-force descendant set *)
+Theorem C28_chain_rollup : forall n edges p measure ops us,
+  (forall c q, In (c, q) edges -> c < n /\ q < n) ->
+  from_edges n edges = inl p ->
+  length measure = n -> (forall u, In u us -> fst u < n) ->
+  let ix0 := mk_index p (build_chain p) None [] in
+  apply_updates (set_measure ix0 measure ops) us = Some (set_measure ix0 (upd_all measure us) ops) /\
+  forall y o, y < n -> (o = OCount \/ In o ops) ->
+    rollup (set_measure ix0 (upd_all measure us) ops) y o = Some (rollup_spec p (upd_all measure us) y o).
+Proof.
+  intros n edges p measure ops us Hr H Hm Hus.
+  destruct (from_edges_wf n edges p Hr H) as [[rk W] [TO [Hn _]]]. rewrite <- Hn in *.
+  apply (chain_rollup_after_updates p rk W TO); auto.
+Qed.
+
+Example C28_chain_rollup_nonvacuous :
+  match from_edges 4 [(3, 1); (3, 2); (1, 0); (2, 0)] with
+  | inl p => let ix := set_measure (mk_index p (build_chain p) None []) [Some 1; Some 1; Some 1; Some 1]%Z [OSum; OMax] in
+             rollup ix 0 OSum = Some (RInt 4) /\
+             option_map (fun i => rollup i 0 OMax) (apply_updates ix [(3, Some 9%Z)]) = Some (Some (RInt 9)) /\
+             option_map (fun i => rollup i 2 OSum) (apply_updates ix [(3, Some 9%Z); (2, None)]) = Some (Some (RInt 9))
+  | inr _ => False
+  end.
+Proof. vm_compute. repeat split; reflexivity. Qed.
+
+(* ---- lowest common ancestors == minimal common ancestors (nested-set walk; chain filter) ---- *)
+Theorem C28_lca_nested : forall n edges p m r,
+  (forall c q, In (c, q) edges -> c < n /\ q < n) ->
+  from_edges n edges = inl p -> is_tree p = true ->
+  forall x y, x < n -> y < n ->
+  lowest_common_ancestors (mk_index p (build_nested p) m r) x y = spec_lca p x y.
+Proof.
+  intros n edges p m r Hr H Ht x y Hx Hy.
+  destruct (from_edges_wf n edges p Hr H) as [[rk W] [TO [Hn _]]]. subst n.
+  apply (nested_lca p rk W TO (is_tree_forest p Ht)); auto.
+Qed.
+
+Theorem C28_lca_chain : forall n edges p m r,
+  (forall c q, In (c, q) edges -> c < n /\ q < n) ->
+  from_edges n edges = inl p ->
+  forall x y, x < n -> y < n ->
+  lowest_common_ancestors (mk_index p (build_chain p) m r) x y = spec_lca p x y.
+Proof.
+  intros n edges p m r Hr H x y Hx Hy.
+  destruct (from_edges_wf n edges p Hr H) as [[rk W] [TO [Hn _]]]. subst n.
+  apply lca_generic; auto.
+  - reflexivity.
+  - intros a b Ha Hb. apply (chain_subsumes p rk W TO); auto.
+Qed.
+
+Example C28_lca_nonvacuous :
+  lowest_common_ancestors (mk_index ex_forest (build_nested ex_forest) None []) 3 2 = [0] /\
+  lowest_common_ancestors (mk_index ex_forest (build_nested ex_forest) None []) 3 4 = [] /\
+  match from_edges 4 [(2, 0); (2, 1); (3, 0); (3, 1)] with
+  | inl p => lowest_common_ancestors (mk_index p (build_chain p) None []) 2 3 = [0; 1]
+  | inr _ => False
+  end.
+Proof. vm_compute. repeat split; reflexivity. Qed.
+
 (* ---- per-chain suffix folds (chain encoding roll-ups), all chain lengths, all four monoids ---- *)
 Theorem C28_monoid_laws : forall o,
   (forall a b c, combine o a (combine o b c) = combine o (combine o a b) c) /\
@@ -313,13 +374,13 @@ Proof.
 Qed.
 
 (* set_measure: cell i of a chain's table is the fold of the chain's values from position i on *)
-Theorem C28_rollup_chain_suffix_build_partial : forall o vals i, i <= length vals ->
+Theorem C28_chain_suffix_build : forall o vals i, i <= length vals ->
   nth i (suffix_folds o vals) RNull = fold_vals o (skipn i vals).
 Proof. exact suffix_folds_spec. Qed.
 
 (* update_measure: refolding cells pos..0 from the updated measure gives exactly the table a
    rebuild with the updated measure produces (update commutes with rebuild, chain encoding) *)
-Theorem C28_update_commutes_chain_suffix_partial : forall o chain m suf pos,
+Theorem C28_chain_suffix_update : forall o chain m suf pos,
   let vals := map (fun v => rv_of (nth v m None) (identity o)) chain in
   pos < length chain ->
   length suf = S (length chain) ->
@@ -355,7 +416,7 @@ Definition C28_subsumes_desc_full : Prop :=
   descendant_count (mk_index p en m r) y = length (spec_desc p y).
 
 (* roll-up = fold of the monoid over the brute-force descendant set, every encoding, every monoid
-   (proved for nested-set: C28_nested_rollup; open for chain and near-tree) *)
+   (proved for nested-set: C28_nested_rollup, and chain: C28_chain_rollup; open for near-tree) *)
 Definition C28_rollup_full : Prop :=
   forall p rk f en measure ops, wf_poset p rk -> topo_ok p -> build_enc p f = inl en ->
   length measure = pn p ->
@@ -363,7 +424,7 @@ Definition C28_rollup_full : Prop :=
   rollup (set_measure (mk_index p en None []) measure ops) y o = Some (rollup_spec p measure y o).
 
 (* a point update lands in the state a rebuild with the updated measure would produce
-   (proved for nested-set: C28_nested_update_commutes; open for chain and near-tree) *)
+   (proved for nested-set: C28_nested_update_commutes, and chain: C28_chain_rollup; open for near-tree) *)
 Definition C28_update_commutes_full : Prop :=
   forall p rk f en measure ops node v, wf_poset p rk -> topo_ok p -> build_enc p f = inl en ->
   length measure = pn p -> node < pn p ->
@@ -372,7 +433,7 @@ Definition C28_update_commutes_full : Prop :=
              (update_measure (set_measure (mk_index p en None []) measure ops) node v) =
   Some (rollup (set_measure (mk_index p en None []) (upd measure node v) ops) y o).
 
-(* LCA set = minimal common ancestors *)
+(* LCA set = minimal common ancestors (proved for nested-set: C28_lca_nested, chain: C28_lca_chain; open for near-tree) *)
 Definition C28_lca_full : Prop :=
   forall p rk f en m r, wf_poset p rk -> topo_ok p -> build_enc p f = inl en ->
   forall x y, x < pn p -> y < pn p ->
@@ -393,10 +454,13 @@ Print Assumptions C28_nested_update_commutes.
 Print Assumptions C28_segtree.
 Print Assumptions C28_chain_partition.
 Print Assumptions C28_chain_reachable.
+Print Assumptions C28_chain_rollup.
+Print Assumptions C28_lca_nested.
+Print Assumptions C28_lca_chain.
 Print Assumptions C28_nested_subsumes.
 Print Assumptions C28_nested_desc.
 Print Assumptions C28_fenwick_build.
 Print Assumptions C28_fenwick_update.
 Print Assumptions C28_monoid_laws.
-Print Assumptions C28_rollup_chain_suffix_build_partial.
-Print Assumptions C28_update_commutes_chain_suffix_partial.
+Print Assumptions C28_chain_suffix_build.
+Print Assumptions C28_chain_suffix_update.
